@@ -89,6 +89,12 @@ func (x *Exec) exchange(c *Client, raw []byte, method int, emits []emit, dels []
 	x.slept = false
 	x.purgeModel() // the request is processed at this very instant
 	x.w.send(c, raw)
+	if x.dupNext {
+		// the network duplicates the datagram: the second copy is right behind the first
+		rq.dup, x.dupNext = true, false
+		x.w.send(c, raw)
+		x.St.inc("request-datagram-duplicated")
+	}
 	x.settle()
 	x.waitCallbacks()
 	o := x.observe()
@@ -446,7 +452,11 @@ func (x *Exec) opAllocate(st *Step) { //nolint:cyclop,gocyclo,maintidx
 	if lost {
 		x.w.srvSock.FailWrites(1)
 	}
+	cfg := &x.w.cfg
+	x.dupNext = st.Dup && !lost && st.Defect == "" && !c.Stream && malformed == "" && cfg.GenFailAt == 0 && cfg.Quota == 0 && cfg.RealGenPorts == 0 &&
+		cfg.CallbackSleepS == 0 && !cfg.NoAuth && st.Opt == "" && st.Rel == ""
 	rq, before, proceed := x.authExchange(c, ui, m, st, ref.MethodAllocate, "Allocate")
+	x.dupNext = false
 	x.w.srvSock.FailWrites(0)
 	if !proceed {
 		return
